@@ -3,6 +3,7 @@
 use std::path::Path;
 
 use mahf::{
+    Random,
     components::utils::populations::{ClearPopulation, DuplicatePopulation, InterleavePopulations, RotatePopulations, SplitPopulationByObjectiveValue},
     state::common::Populations,
     Component, Individual, State,
@@ -38,6 +39,13 @@ pub enum Op {
     CompRotate(u8),
     /// the next component operation is executed inside that many (1-3) nested scopes; the stack lives outside them
     Nest(u8),
+    /// inside 1-3 nested scopes (none of them holds a stack of its own) the stack is reached through
+    /// 0: `populations_mut()`, 1: `get_multiple_mut::<(Random, Populations)>()`, 2: the entry API; the individual is
+    /// pushed to the current population (a new population is pushed if the stack is empty)
+    ScopedEdit(u8, u8, Ind),
+    /// inside a nested scope that holds a stack of its own (one marker population): `get_multiple_mut::<(Random,
+    /// Populations)>()` - the generator lives outside - reaches the inner stack; the outer one is untouched
+    ShadowedAccess(u8),
     CompClear,
     CompDuplicate,
     CompInterleave,
@@ -152,7 +160,7 @@ impl Check for StackCheck {
         NAME.into()
     }
     fn classes(&self) -> &'static [&'static str] {
-        &["height>=3", "rotate 2<=n<=height", "rotate n==height", "pop on empty", "component op", "edit in place", "split with tie", "component executed inside nested scopes"]
+        &["height>=3", "rotate 2<=n<=height", "rotate n==height", "pop on empty", "component op", "edit in place", "split with tie", "component executed inside nested scopes", "stack edited from inside nested scopes (accessor / multiple lookup / entry API)", "scope with a stack of its own"]
     }
     fn oracle(&self, ops: &Vec<Op>) -> Outcome {
         let mut classes = 0u64;
@@ -166,6 +174,7 @@ fn run(ops: &[Op], classes: &mut u64) -> Result<(), crate::engine::Failure> {
     let problem = RealP::new(1, -1.0, 1.0, RealKind::Tag);
     let mut state: State<RealP> = State::new();
     state.insert(Populations::<RealP>::new());
+    state.insert(Random::new(1));
     let mut model: Vec<Pop> = Vec::new();
     probe(&state, &model, 0, &Op::TryPop)?;
     let mut nest = 0u8;
@@ -179,6 +188,71 @@ fn run(ops: &[Op], classes: &mut u64) -> Result<(), crate::engine::Failure> {
         }
         match op {
             Op::Nest(k) => nest = 1 + k % 3,
+            Op::ScopedEdit(depth, how, i) => {
+                *classes |= 1 << 8;
+                let depth = 1 + depth % 3;
+                let how = how % 3;
+                fn go(st: &mut State<RealP>, depth: u8, how: u8, i: &Ind) -> mahf::ExecResult<()> {
+                    if depth > 0 {
+                        return st.with_inner_state(|inner| go(inner, depth - 1, how, i)).map(|_| ());
+                    }
+                    let edit = |ps: &mut Populations<RealP>| {
+                        if ps.is_empty() {
+                            ps.push(vec![ind(i)]);
+                        } else {
+                            ps.current_mut().push(ind(i));
+                        }
+                    };
+                    match how {
+                        0 => edit(&mut st.populations_mut()),
+                        1 => {
+                            let (_rng, ps) = st.try_get_multiple_mut::<(Random, Populations<RealP>)>()?;
+                            edit(ps);
+                        }
+                        _ => {
+                            let mut e = st.entry::<Populations<RealP>>().or_default();
+                            edit(&mut e);
+                        }
+                    }
+                    Ok(())
+                }
+                let r = catch(|| go(&mut state, depth, how, i));
+                ensure_that!(matches!(r, Ok(Ok(()))), "C04 stack access inside nested scopes fails", "step {step} {op:?}: {r:?}");
+                if h == 0 {
+                    model.push(vec![*i]);
+                } else {
+                    model[h - 1].push(*i);
+                }
+            }
+            Op::ShadowedAccess(depth) => {
+                *classes |= 1 << 9;
+                let depth = 1 + depth % 2;
+                fn go(st: &mut State<RealP>, depth: u8) -> mahf::ExecResult<Vec<f64>> {
+                    if depth > 1 {
+                        let mut out = Vec::new();
+                        st.with_inner_state(|inner| {
+                            out = go(inner, depth - 1)?;
+                            Ok(())
+                        })?;
+                        return Ok(out);
+                    }
+                    let mut out = Vec::new();
+                    st.with_inner_state(|inner| {
+                        let mut own = Populations::<RealP>::new();
+                        own.push(vec![ind(&(999, None))]);
+                        inner.insert(own);
+                        let (_rng, ps) = inner.try_get_multiple_mut::<(Random, Populations<RealP>)>()?;
+                        out = ps.current().iter().map(|i| i.solution()[0]).collect();
+                        ps.current_mut().push(ind(&(998, None)));
+                        Ok(())
+                    })?;
+                    Ok(out)
+                }
+                match catch(|| go(&mut state, depth)) {
+                    Ok(Ok(seen)) => ensure_that!(seen == vec![999.0], "C04 shadowed stack not reached", "step {step} {op:?}: inside a scope with its own stack, the multiple lookup (Random, Populations) reached a stack whose current population is {seen:?}, expected the scope's own [999]"),
+                    r => fail!("C04 stack access inside nested scopes fails", "step {step} {op:?}: {r:?}"),
+                }
+            }
             Op::Push(p) => {
                 state.populations_mut().push(p.iter().map(ind).collect());
                 model.push(p.clone());
@@ -416,6 +490,8 @@ fn exhaustive_alphabet() -> Vec<Op> {
         Op::CompRotate(2),
         Op::CompRotate(3),
         Op::Nest(1),
+        Op::ScopedEdit(1, 1, (7, None)),
+        Op::ScopedEdit(1, 2, (8, Some(1))),
         Op::CompDuplicate,
         Op::CompInterleave,
         Op::CompSplit,
@@ -502,6 +578,8 @@ fn op_strategy() -> impl Strategy<Value = Op> {
         1 => (0u16..40).prop_map(Op::EditRetag),
         2 => (1u8..7).prop_map(Op::CompRotate),
         2 => (0u8..3).prop_map(Op::Nest),
+        2 => (0u8..3, 0u8..3, ind_strategy()).prop_map(|(d, h, i)| Op::ScopedEdit(d, h, i)),
+        1 => (0u8..2).prop_map(Op::ShadowedAccess),
         1 => Just(Op::CompClear),
         1 => Just(Op::CompDuplicate),
         1 => Just(Op::CompInterleave),
